@@ -487,7 +487,7 @@ static inline int myth_create_ex_body(myth_thread_t * id,
     env->prof_data.create_cnt++;
 #endif /* MYTH_CREATE_PROF */
   }
-  id[0] = new_thread;
+  if (id) id[0] = new_thread;
   return 0;
 }
 
